@@ -108,7 +108,7 @@ def errorArgs (pos : Nat) (e : ErrTy) (errs : List LErr) : List Nested → ErrTy
 /-- what one item does, as far as it can be said without the state -/
 inductive Effect where
   | errs (es : List LErr)
-  | ret (es : List LErr)                         -- report and return from `try_parse_logos`
+  | ret (e : LErr)                               -- report and return from `try_parse_logos`
   | setCrate (v : List Tok)
   | setError (e : ErrTy) (es : List LErr)
   | setExport (v : List Tok)
@@ -140,8 +140,8 @@ def classify (o : Orc) : Nested → Effect
     | "error", .assign t => .setError { ty := t } []
     | "error", .group g =>
       let (tyToks, rest) := collectTail (o.groupToks g)
-      if tyToks.isEmpty then .ret [.form "error"]
-      else if !o.isType tyToks then .ret [.badValue "error"]
+      if tyToks.isEmpty then .ret (.form "error")
+      else if !o.isType tyToks then .ret (.badValue "error")
       else
         let r := errorArgs 0 { ty := tyToks } [] (allNested true rest)
         .setError r.1 r.2
@@ -186,18 +186,21 @@ def classify (o : Orc) : Nested → Effect
 
 def addErrs (s : St) (es : List LErr) : St := { s with errors := s.errors ++ es }
 
+/-- "... can be defined only once" when the slot is already filled -/
+def dupErr (filled : Bool) (name : String) : List LErr := if filled then [.dup name] else []
+
 def apply (s : St) : Effect → St
   | .errs es => addErrs s es
-  | .ret es => { addErrs s es with returned := true }
-  | .setCrate v => { addErrs s (if s.crate.isSome then [.dup "crate"] else []) with crate := some v }
-  | .setError e es => { addErrs s (es ++ if s.errorTy.isSome then [.dup "error"] else []) with errorTy := some e }
-  | .setExport v => { addErrs s (if s.exportDir.isSome then [.dup "export_dir"] else []) with exportDir := some v }
-  | .setExtras v => { addErrs s (if s.extras.isSome then [.dup "extras"] else []) with extras := some v }
-  | .setUtf8 b => { addErrs s (if s.utf8.isSome then [.dup "utf8"] else []) with utf8 := some b }
-  | .pushSkip d => { s with skips := s.skips ++ [d] }
+  | .ret e => { addErrs s [e] with returned := true }
+  | .setCrate v => { addErrs s (dupErr s.crate.isSome "crate") with crate := some v }
+  | .setError e es => { addErrs s (es ++ dupErr s.errorTy.isSome "error") with errorTy := some e }
+  | .setExport v => { addErrs s (dupErr s.exportDir.isSome "export_dir") with exportDir := some v }
+  | .setExtras v => { addErrs s (dupErr s.extras.isSome "extras") with extras := some v }
+  | .setUtf8 b => { addErrs s (dupErr s.utf8.isSome "utf8") with utf8 := some b }
+  | .pushSkip d => { addErrs s (d.defn.errors.map .arg) with skips := s.skips ++ [d] }    -- `named_attr` reports to the same list
   | .pushSub n k v => { s with subs := s.subs ++ [(n, k, v)] }
   | .lifetime v => { s with ty := TypeItems.stepFixed s.ty (.lifetime v) }
-  | .lifetimeBad => addErrs s ((if s.ty.ltSet then [.dup "lifetime"] else []) ++ [.badValue "lifetime"])
+  | .lifetimeBad => addErrs s (dupErr s.ty.ltSet "lifetime" ++ [.badValue "lifetime"])
   | .type p t => { s with ty := TypeItems.stepFixed s.ty (.type p t) }
 
 def step (o : Orc) (s : St) (n : Nested) : St :=
@@ -208,9 +211,7 @@ def run (o : Orc) (s : St) (items : List Nested) : St := items.foldl (step o) s
 
 def init (ltParams tyParams : List String) : St := { ty := TypeItems.init ltParams tyParams }
 
-/-- the derive goes on to generate code only without errors; errors inside a skip's argument list count -/
-def skipErrs (s : St) : Nat := (s.skips.map fun d => d.defn.errors.length).sum
-
-def accepted (s : St) : Bool := s.errors.isEmpty && s.ty.errs == 0 && skipErrs s == 0
+/-- the derive goes on to generate code only without errors -/
+def accepted (s : St) : Bool := s.errors.isEmpty && s.ty.errs == 0
 
 end Logos.LogosItems
